@@ -428,6 +428,18 @@ def edit_vs_rebuild_shard(args):
                 spec = sp2
             else:
                 cornered = False
+        if h % 3 == 2 and len(spec["system"]["usage_patterns"]) >= 2 and not drain_ops(spec):
+            # the history that drains a usage pattern needs one that has its network to itself: the last one gets a network of its own
+            sp2 = copy.deepcopy(spec)
+            pl = sp2["system"]["usage_patterns"][-1]
+            n_old = sp2["patterns"][pl]["network"]
+            if any(q != pl and sp2["patterns"][q]["network"] == n_old for q in sp2["patterns"]):
+                n_new = f"n{len(sp2['networks'])}"
+                sp2["networks"][n_new] = copy.deepcopy(sp2["networks"][n_old])
+                sp2["networks"][n_new].pop("display_name", None)
+                sp2["patterns"][pl]["network"] = n_new
+                if drain_ops(sp2):
+                    spec = sp2
         try:
             with watchdog(60):
                 live = Live(spec)
